@@ -804,7 +804,7 @@ type elem =
 | EHeading of nat * text
 | EBlank
 | EForeign of nat * text * text list * text
-| EScrut of nat * text option * text list
+| EScrut of nat * text option * text * text list
    * ((text * text list) * bline list) option * text
 
 val fence : nat -> text
